@@ -92,9 +92,22 @@ Lemma lib_observed_okb : forallb (fun k => match find_class (wclasses lib) k wit
                                            end) lib_observed_ids = true.
 Proof. vm_compute. reflexivity. Qed.
 
+(* ObservedData in its 2.0 form (an `objects` dictionary of observables): Proofs/C01Observed.v, observed20_roundtrip *)
+Definition lib_observed20_ids : list ustring :=
+  Eval vm_compute in filter (fun k => match find_class (wclasses lib) k with
+                                      | Some c => observed20_ok variant_repaired lib lib_proved_idsw c
+                                      | None => false
+                                      end) (filter (fun x => negb (mem_ustr x lib_bundle_ids)) lib_unproved_ids0).
+
+Lemma lib_observed20_okb : forallb (fun k => match find_class (wclasses lib) k with
+                                             | Some c => observed20_ok variant_repaired lib lib_proved_idsw c
+                                             | None => false
+                                             end) lib_observed20_ids = true.
+Proof. vm_compute. reflexivity. Qed.
+
 (* classes covered by neither theorem *)
 Definition lib_unproved_ids : list ustring :=
-  Eval vm_compute in filter (fun x => negb (mem_ustr x lib_bundle_ids) && negb (mem_ustr x lib_observed_ids)) lib_unproved_ids0.
+  Eval vm_compute in filter (fun x => negb (mem_ustr x lib_bundle_ids) && negb (mem_ustr x lib_observed_ids) && negb (mem_ustr x lib_observed20_ids)) lib_unproved_ids0.
 
 Definition lib_coverage : nat * nat :=
   Eval vm_compute in (List.length lib_proved_idsw + List.length lib_bundle_ids, List.length (wclasses lib))%nat.
